@@ -16,6 +16,7 @@
    [no_late] is exactly the absence of that situation; [C05_late_binding_goes_stale] is the witness. *)
 From Coq Require Import List Arith Bool.
 From AM Require Import Rust.Ast Gen.Deps Gen.HotReloading Proofs.Dfs Proofs.Pass Tie.Graph Tie.Answers Tie.Records Gen.Paths Tie.Paths.
+From AM Require Ref.Sys Proofs.SysGraph.
 Import ListNotations.
 
 (* L1 *)
@@ -70,3 +71,13 @@ Proof. exact pass_order_is_one_reversed_post_order. Qed.
 Theorem C05_code_events_reach_the_pass :
   run_update_wf run_update = true /\ handle_events_wf HotReloadingData_handle_events = true.
 Proof. exact (conj (proj1 paths_as_modelled) (proj1 (proj2 paths_as_modelled))). Qed.
+
+(* dependency sets are re-learned at every reload: after a successful reload the graph holds for the
+   asset exactly the entries that reload recorded, not what earlier loads had recorded *)
+Theorem C05_reload_relearns_dependencies : forall fuel s k n t old s1 tr v tok,
+  Sys.g_get (Sys.graph s) (Sys.DepAsset k) = Some n -> Sys.g_typ n = Some t ->
+  Sys.cache_get s k = Some old -> Sys.en_dyn old = true ->
+  Sys.load_wrapped (Sys.load_entry_f fuel) (Sys.load_owned_f fuel) (Sys.rec_push s (Some [])) t (snd k)
+    = (s1, tr, Sys.ROk (v, tok)) ->
+  SysGraph.deps_of (Sys.graph (fst (Sys.reload_one fuel s k))) (Sys.DepAsset k) = snd (Sys.rec_pop s1).
+Proof. exact SysGraph.reload_relearns_dependencies. Qed.
